@@ -205,8 +205,7 @@ def gen_encodings(ctx, emit):
             b"\x02" + b"\x11" * 31, b"\x02" + b"\x11" * 33, b"\x04" + b"\x11" * 63, b"\x04" + b"\x11" * 65, b"\x08" + b"\x11" * 64]
     for k in keys:
         emit("vm_pubenc %s" % hx(k))
-        for st in (0, 1):
-            emit("vm_secshape %s %d" % (hx(k), st))
+        emit("vm_secshape %s" % hx(k))
     # witness program / p2sh shapes
     for first in (0x00, 0x4f, 0x50, 0x51, 0x52, 0x60, 0x61):
         for n_ in (0, 1, 2, 3, 20, 32, 39, 40, 41):
